@@ -145,3 +145,27 @@ Proof.
   destruct (m_notify_all self); [|reflexivity]. rewrite env_get_insert.
   match goal with |- context [str_eqb k ?x] => rewrite (Hk' x eq_refl) end. reflexivity.
 Qed.
+
+(* ---------- C20: -D versus "at the end of the app's global env" ---------- *)
+Lemma merge_opt_assoc a g c :
+  ~ (is_list a = true /\ is_single g = true /\ is_list c = true) ->
+  merge_opt (merge_opt a g) c = merge_opt a (merge_opt g c).
+Proof.
+  intros H. destruct a as [[a|a]|], g as [[g|g]|], c as [[c|c]|]; cbn in *; try reflexivity.
+  - exfalso. apply H. auto.
+  - rewrite app_assoc. reflexivity.
+Qed.
+
+(* the -D layer merged onto the layers below equals merging it into the last module layer first,
+   for every variable where that is associative *)
+Theorem define_as_last_layer acc (layers : list (option envkey)) g c :
+  ~ (is_list (fold_left merge_opt layers acc) = true /\ is_single g = true /\ is_list c = true) ->
+  fold_left merge_opt (layers ++ [g] ++ [c]) acc = fold_left merge_opt (layers ++ [merge_opt g c]) acc.
+Proof.
+  intros H. rewrite !fold_left_app. cbn [fold_left]. apply merge_opt_assoc. exact H.
+Qed.
+
+Example define_not_associative :
+  merge_opt (merge_opt (Some (EList [S_ "ctx"])) (Some (Single (S_ "app")))) (Some (EList [S_ "cli"]))
+  <> merge_opt (Some (EList [S_ "ctx"])) (merge_opt (Some (Single (S_ "app"))) (Some (EList [S_ "cli"]))).
+Proof. cbn. discriminate. Qed.
